@@ -26,7 +26,7 @@ def lane_setup(k):
 def run_one(lane, sid):
     d = "%s/lane%d" % (BASE, lane)
     meta = json.load(open(os.path.join(ROOT, "seeded", sid, "meta.json")))
-    pid = meta.get("breaks_property") or sid.split("_")[0]
+    pid = os.environ.get("SWEEP_PROP") or meta.get("breaks_property") or sid.split("_")[0]
     patch = os.path.join(ROOT, "seeded", sid, "patch.diff")
     r = sh(["git", "-C", d + "/repo", "apply", patch])
     if r.returncode != 0:
